@@ -50,6 +50,8 @@ func (rs *RuleSpec) program() *Program {
 		t = InlineOf(e)
 	case "object":
 		t = InlineOf(obj("", fld("x", T(TString))))
+	case "oneof":
+		t = InlineOf(oneofD("", fld("a", InlineOf(obj("", fld("x", T(TString))))), fld("b", InlineOf(obj("")))))
 	default:
 		t = T(rs.Kind)
 	}
@@ -303,6 +305,7 @@ func OtherRuleSpecs() []*RuleSpec {
 	mk("decimal:list", "decimal", TDecimal, "listRules.filtering.filterable = true", "listRules.sorting.sortable = true")
 	mk("float:list", "float", TFloat64, "listRules.filtering.filterable = true", "listRules.sorting.sortable = true")
 	mk("enum:list", "enum", TEnum, "listRules.filtering.filterable = true")
+	mk("oneof:list-filter", "oneof", TOneof, "listRules.filtering.filterable = true")
 	mk("array:single-form", "string", TString)
 	return out
 }
